@@ -72,6 +72,7 @@ AtomHolds(a, s, P) ==
       [] a.k = "ltime"  -> InRange(s.lt, a.lo, a.hi)
       [] a.k = "fteq"   -> s.ft = a.n                  \* a single time instead of a range (ftime:"2022-05-06 020000")
       [] a.k = "capc"   -> \E i \in DOMAIN s.ev : s.ev[i].d = "c"     \* cdata:"(?P<v>[A-Z]+)": captures the first client token
+      [] a.k = "hostself" -> HostIn(s.chost, s.shost, a.bits)          \* client and server in the same network (chost:@shost@/24)
       [] a.k = "protoself" -> TRUE                     \* the protocol of the stream itself (protocol:@protocol@)
       \* the duration of the stream (ltime:@ftime@+90m:  /  ltime::@ftime@+90m, thresholds between whole hours):
       \* "ge" n: lasts at least n hours, "le" n: lasts less than n hours
@@ -161,6 +162,7 @@ CondHolds(c, s) ==
     CASE c.kind = "num"  -> c.number + SumOf(c.sum, s) >= 0
       [] c.kind = "flag" -> s.proto # c.value
       [] c.kind = "host" -> HostIn(IF c.src = "c" THEN s.chost ELSE s.shost, c.h, c.bits) # c.inv
+      [] c.kind = "host2" -> HostIn(s.chost, s.shost, c.bits) # c.inv                     \* the two hosts of the stream itself
       [] c.kind = "tag"  -> IF c.name \in Range(s.tags) THEN c.am ELSE c.af
       [] c.kind = "data" -> DataCondHolds(c, s)
       [] c.kind = "time" -> c.dur + c.ft * s.ft + c.lt * s.lt >= 0
